@@ -62,6 +62,6 @@ def session(rng):
 
 def gen(rng, tier):
     ops = []
-    for _ in range(budget(tier, 40, 3000)):
+    for _ in range(budget(tier, 40, 1200)):
         ops += session(rng)
     return ops
